@@ -40,6 +40,10 @@ class ProbeResource(IResource):
             raise BudgetExceeded(sh['queries'])
         u = self.calendar.get_available_units(date)
         u = 0 if u is None else u
+        caps = sh.get('task_caps')
+        if caps and task is not None:
+            # a resource may offer a task less than its calendar says (the `task` argument of the extension point)
+            u = u * caps.get(str(task.id), 1)
         if sh.get('log_queries'):
             sh['events'].append(('q', self.name, date, task.id if task is not None else None, u))
         return u
@@ -145,7 +149,7 @@ EST_DEC = [None, 0, 1, 3.5, 8, 20, 0.1, 0.2, 0.7, 40, 0.3, 2.4]
 SPENT_DEC = [0, 1, 2.5, 8, 50, 0.1]
 
 
-def gen_case(rnd, direction=None, n_max=12, klass='wellformed', fixed=None, externals=True):
+def gen_case(rnd, direction=None, n_max=12, klass='wellformed', fixed=None, externals=True, bwd_fixed=False):
     direction = direction or rnd.choice(['fwd', 'bwd'])
     base = REAL(2026, 1, 1) + td(days=rnd.randint(0, 6), hours=rnd.choice([0, 0, 0, 10, 23]), minutes=rnd.choice([0, 0, 30]))
     if direction == 'bwd':
@@ -167,7 +171,9 @@ def gen_case(rnd, direction=None, n_max=12, klass='wellformed', fixed=None, exte
         if tasks and rnd.random() < 0.55:
             t['parent'] = rnd.randrange(len(tasks))
         if rnd.random() < 0.15:
-            t['attrs']['team'] = rnd.choice(['x', 'y'])
+            t['attrs']['team'] = rnd.choice(['x', 'y', None, 0, ''])     # None, 0 and '' are values like any other
+        if rnd.random() < 0.05:
+            t['attrs']['flag'] = rnd.choice([False, None, True])
         tasks.append(t)
     if rnd.random() < 0.15:
         tasks[rnd.randrange(n)]['id'] = 0          # 0 is a legal id (also for a summary task)
@@ -214,17 +220,46 @@ def gen_case(rnd, direction=None, n_max=12, klass='wellformed', fixed=None, exte
                 t['start'] = base + td(days=rnd.randint(-20, 20))      # stale date on a milestone: must be replaced
             elif fixed and not ch[i] and not t['milestone'] and t['start'] is None and rnd.random() < 0.04:
                 t['end'] = base - td(days=rnd.randint(20, 40))         # completed, only the end date recorded
+    if bwd_fixed and direction == 'bwd' and rnd.random() < 0.4:
+        # dates typed on leaves before a backward run (only the checks whose property speaks about every backward
+        # schedule ask for this class): a start, an end, or both, earlier or later than what the run would assign
+        for i, t in enumerate(tasks):
+            if not ch[i] and not t['milestone'] and rnd.random() < 0.25:
+                k = rnd.random()
+                s_ = base + td(days=rnd.randint(-40, 12), hours=rnd.choice([0, 0, 6, 23]))
+                if k < 0.45:
+                    t['start'] = s_
+                elif k < 0.75:
+                    t['end'] = s_
+                else:
+                    t['start'], t['end'] = s_, s_ + td(days=rnd.randint(0, 9), hours=rnd.choice([0, 12]))
     exts = []
     if externals and direction == 'fwd' and rnd.random() < 0.2 and n:
         for k in range(rnd.randint(1, 2)):
             s_ = base + td(days=rnd.randint(-30, 10))
-            exts.append({'id': 100 + k, 'start': s_, 'end': s_ + td(days=rnd.randint(0, 12), hours=rnd.choice([0, 7])),
+            # an outside task is a different object whatever its id: a third of them carry the id of a member
+            xid = tasks[rnd.randrange(n)]['id'] if rnd.random() < 0.35 else 100 + k
+            if any(e['id'] == xid for e in exts):
+                xid = 100 + k
+            exts.append({'id': xid, 'start': s_, 'end': s_ + td(days=rnd.randint(0, 12), hours=rnd.choice([0, 7])),
                          'succ': sorted(rnd.sample(range(n), rnd.randint(1, min(2, n)))), 'estimate': rnd.choice([None, 3]),
-                         'in_other_wbs': rnd.random() < 0.5})
+                         'in_other_wbs': rnd.random() < 0.5,
+                         # the outside predecessor may be a phase of another project with a child that has no dates yet
+                         'kid': ({'id': 300 + k, 'estimate': rnd.choice([2, 8])} if rnd.random() < 0.25 else None)})
     if externals and direction == 'fwd' and rnd.random() < 0.12 and n:
         # a task outside the WBS that waits for members (never visited by the forward pass; part of the link structure)
         exts.append({'id': 150, 'start': None, 'end': None, 'succ': [], 'pred_of_ext': sorted(rnd.sample(range(n), rnd.randint(1, min(2, n)))),
                      'estimate': None, 'in_other_wbs': rnd.random() < 0.5})
+    if externals and direction == 'bwd' and rnd.random() < 0.2 and n:
+        # tasks outside the WBS (another project, already dated) that wait for members: a dependency like any other
+        for k in range(rnd.randint(1, 2)):
+            s_ = base + td(days=rnd.randint(-25, 3), hours=rnd.choice([0, 0, 9]))
+            xid = tasks[rnd.randrange(n)]['id'] if rnd.random() < 0.3 else 100 + k
+            if any(e['id'] == xid for e in exts):
+                xid = 100 + k
+            exts.append({'id': xid, 'start': s_, 'end': s_ + td(days=rnd.randint(0, 6), hours=rnd.choice([0, 7])), 'succ': [],
+                         'succ_of': sorted(rnd.sample(range(n), rnd.randint(1, min(2, n)))), 'estimate': rnd.choice([None, None, 3, 8]),
+                         'in_other_wbs': rnd.random() < 0.5})
     resources = {}
     for nm in res_names:
         if rnd.random() < 0.75:
@@ -238,7 +273,7 @@ def gen_case(rnd, direction=None, n_max=12, klass='wellformed', fixed=None, exte
         now = REAL(2020, 1, 1)
     return {'kind': 'sched', 'tasks': tasks, 'links': links, 'externals': exts, 'resources': resources, 'dir': direction,
             'date': base, 'now': now, 'balance': rnd.random() < 0.7, 'default_estimate': rnd.choice([0, 0, 4, 1.5]),
-            'class': klass, 'decimal': decimal}
+            'class': klass, 'decimal': decimal, 'assemble': rnd.choice(['attached', 'attached', 'detached-first'])}
 
 
 # ------------------------------------------------------------------------------------------
@@ -258,11 +293,20 @@ def build(case, budget=None, log_queries=False):
         o = Task(t['id'], t['name'], resource=t['resource'], estimate=t['estimate'], spent=t['spent'],
                  milestone=t['milestone'], min_start=t['min_start'], start=t['start'], end=t['end'], **kw)
         objs.append(o)
-    for i, t in enumerate(case['tasks']):
-        if t['parent'] is None:
-            w.roots.append(objs[i])
-        else:
-            objs[t['parent']].children.append(objs[i])
+    if case.get('assemble') == 'detached-first':
+        # the tree is put together first and handed to the WBS afterwards, whole branches at a time
+        for i, t in enumerate(case['tasks']):
+            if t['parent'] is not None:
+                objs[t['parent']].children.append(objs[i])
+        for i, t in enumerate(case['tasks']):
+            if t['parent'] is None:
+                w.roots.append(objs[i])
+    else:
+        for i, t in enumerate(case['tasks']):
+            if t['parent'] is None:
+                w.roots.append(objs[i])
+            else:
+                objs[t['parent']].children.append(objs[i])
     for s_, p_ in case['links']:
         objs[s_].predecessors.append(objs[p_])
     exts = []
@@ -273,16 +317,20 @@ def build(case, budget=None, log_queries=False):
             if b.other_wbs is None:
                 b.other_wbs = WBS()
             b.other_wbs.roots.append(x)
+        if e.get('kid'):
+            x.children.append(Task(e['kid']['id'], f"kid{e['kid']['id']}", estimate=e['kid']['estimate']))
         for i in e['succ']:
             objs[i].predecessors.append(x)
         for i in e.get('pred_of_ext') or []:
             x.predecessors.append(objs[i])
+        for i in e.get('succ_of') or []:
+            objs[i].successors.append(x)
         exts.append(x)
     nleaves = sum(1 for i in range(len(objs)) if not objs[i].children) or 1
     n = len(objs)
     if budget is None:
         budget = nleaves * (3 * 100001 + 64) + 10 * n * n + 1000
-    shared = {'events': [], 'queries': 0, 'budget': budget, 'log_queries': log_queries}
+    shared = {'events': [], 'queries': 0, 'budget': budget, 'log_queries': log_queries, 'task_caps': case.get('task_caps') or None}
     probes = []
     for nm, ast in case['resources'].items():
         if ast == 'missing':
@@ -315,7 +363,7 @@ def wbs_snapshot(w, extra=()):
         out.append((t.id, t.parent.id if t.parent else None, tuple(c.id for c in t.children),
                     tuple(p.id for p in t.predecessors), tuple(s.id for s in t.successors),
                     graph_fields(t), id(t.wbs)))
-    for x in extra:
+    for x in list(extra) + [k for x_ in extra for k in x_.children]:
         # link lists of outside tasks are shared with the clone by design (C10), so only their own fields are compared
         out.append(('ext', x.id, tuple((k, v) for k, v in graph_fields(x) if k not in ('estimate', 'spent'))))
     return out
